@@ -870,6 +870,7 @@ var writerClauses = map[int]string{
 	72: "a frame was written without SetWriteDeadline first",
 	73: "an invalid write request put something on the wire",
 	74: "a frame was written under a deadline other than the one in force (the latest SetWriteDeadline, or WriteControl's own)",
+	75: "bytes were written while the deadline armed on the transport was not the one in force for that frame (a transport honouring deadlines may refuse a valid message, or let a control frame outlive its deadline)",
 	80: "pool used although none configured",
 	81: "BufferPool Get/Put do not alternate",
 	82: "the connection holds a buffer it did not Get, or dropped one without Put",
